@@ -183,8 +183,26 @@ def no_call_probe(fr):
                               'what': f'a declaration naming a function of deal that is no contract must be rejected without calling it; observed {obs}; expected {want}'})
 
 
+def reload_probe(fr):
+    """the declaration that counts is the one in the source that is executed: a module imported once, its declaration then tightened /
+    removed, imported afresh"""
+    acts = [['activate'],
+            ['import', 'c20_reload', "import deal\ndeal.module_load(deal.has('stdout'))\nprint('x')\nc20_done = 1\n", 'module'],
+            ['reimport', 'c20_reload', "import deal\ndeal.module_load(deal.has())\nprint('x')\nc20_done = 1\n"],
+            ['reimport', 'c20_reload', "print('x')\nc20_done = 1\n"],
+            ['reimport', 'c20_reload', "raise ValueError('v')\n"]]
+    obs = impl.run_impl('c20_imports.py', [acts])[0]
+    want = ('activate=1 active=1 enabled=1|import c20_reload=ok registered=1 active=1 enabled=1|reimport c20_reload=SilentContractError registered=0 active=1 enabled=1|'
+            'reimport c20_reload=ok registered=1 active=1 enabled=1|reimport c20_reload=ValueError registered=0 active=1 enabled=1')
+    fr.evaluations += 1; fr.add_nontrivial({'reload-probe': 1})
+    if obs != want:
+        fr.violations.append({'scenario': {'actions': acts}, 'impl': obs, 'signature': None,
+                              'what': f'a module imported again after its declaration was edited must run under the declaration its source has now; observed {obs}; expected {want}'})
+
+
 def run(ctx, fr, model_available=True):
     no_call_probe(fr)
+    reload_probe(fr)
     rnd = random.Random(ctx.seed * 3 + 20)
     cases = [gen_case(rnd, k) for k in range(1200 if ctx.tier == 'thorough' else 200)]
     res = impl.run_impl('c20_imports.py', [c[0] for c in cases])
